@@ -95,10 +95,17 @@ fn main() {
                 }
                 conf = Some(conformance::to_json(&r));
             }
+            let scale: f64 = arg(&args, "--runs-scale").and_then(|s| s.parse().ok()).unwrap_or(1.0);
             let cfg = RunCfg {
                 tier,
                 seed,
-                runs: arg(&args, "--runs").and_then(|s| s.parse().ok()),
+                runs: arg(&args, "--runs").and_then(|s| s.parse().ok()).or_else(|| {
+                    if scale != 1.0 {
+                        Some(((prop.runs(tier) as f64) * scale) as u64)
+                    } else {
+                        None
+                    }
+                }),
                 threads,
                 budget_s: arg(&args, "--budget-s")
                     .or_else(|| std::env::var("VERIF_BUDGET_S").ok())
@@ -109,11 +116,23 @@ fn main() {
                 first: arg(&args, "--first").and_then(|s| s.parse().ok()).unwrap_or(0),
                 conformance: conf,
                 quiet: false,
+                summary_out: arg(&args, "--summary-out"),
+                include_summary: arg(&args, "--include-summary"),
             };
             runner::run_check(prop.as_ref(), &cfg)
         }
         "replay" => {
             let path = args.get(2).cloned().unwrap_or_default();
+            if let Ok(t) = std::fs::read_to_string(&path) {
+                if let Ok(j) = json::parse(&t) {
+                    if let Some(w) = j.get("window").and_then(|x| x.usize()) {
+                        if w != model::WINDOW {
+                            eprintln!("HARNESS-ERROR: this replay was recorded with a {}-byte receive window; this binary has {} (./check replay picks the right build)", w, model::WINDOW);
+                            std::process::exit(2);
+                        }
+                    }
+                }
+            }
             match runner::replay_file(&lookup, &path) {
                 Ok((pid, Some(v), expected)) => {
                     println!("VIOLATION property={} replay={}", pid, path);
